@@ -38,7 +38,9 @@ impl Labels {
 	pub(crate) fn try_get_range(&self, range: &LabelRange) -> Result<(u16, u16)> {
 		let start = self.try_get(&range.start)?;
 		let end = self.try_get(&range.end)?;
-		Ok((start, end - start))
+		let length = end.checked_sub(start)
+			.with_context(|| anyhow!("label range {range:?} ends (at {end}) before it starts (at {start})"))?;
+		Ok((start, length))
 	}
 
 	pub(crate) fn next_attempt(&mut self) {
